@@ -63,6 +63,17 @@ def eval_case(case):
         d = d_full - (n_abs if case["remove_abs"] else 0)
         if st.default_work_amount != d:
             out.append(O.V("work amount is not the sub-project's duration", "C20/duration", (st.default_work_amount, d, d_full, n_abs)))
+        # the same file configured again in the same process, with the other setting of the flag and
+        # then with the first one: the result must not depend on what was read before
+        for flag in (not case["remove_abs"], bool(case["remove_abs"])):
+            st2 = BaseSubProjectTask(file_path=path, name="sub2")
+            with warnings.catch_warnings():
+                warnings.simplefilter("ignore")
+                st2.set_all_attributes_from_json(remove_absence_time_list=flag)
+            d2 = d_full - (n_abs if flag else 0)
+            if st2.default_work_amount != d2:
+                out.append(O.V("work amount of a second task configured from the same file is not the sub-project's duration",
+                               "C20/duration-again", (st2.default_work_amount, d2, d_full, n_abs, flag)))
         punit = datetime.timedelta(seconds=pu)
         st.set_work_amount_progress_of_unit_step_time(punit)
         r = Fraction(pu, su)
